@@ -10,6 +10,9 @@ raise when none did") is decided by exactly what the summary forgets.  `PathFram
     collection.  A filter fused into the collection text (`for x in (y for y in C if f(y))`, `cands = [..]; for x in cands`)
     becomes a path fact of the iteration, exactly like `if not f(x): continue` in the body.  Rounds are explored until the
     set of loop-head states (environment and call set, modulo the round suffix) stops growing.
+  * x = helper(..) / helper(..) / return helper(..) at statement level, for helpers selected by `path_inline`: the callee is
+    explored with the same frame on forks of the caller's state, so its decisions and loop rounds are on the caller's path
+    (the ordinary interpreter joins a callee's paths into one value).
   * try:   an exception may leave the body before any of its top-level statements; a handler is entered from the state
     before each of them (the calls of the statement that raised are NOT on that path: "call on the path" means "completed").
 
@@ -25,14 +28,118 @@ condition such as the filter of an EACH term).
 import ast
 import re
 
-from .interp import Frame, OPS
-from .loader import AnalysisError
+from .interp import Frame, OPS, Sym, Obj, Const, render, _clone
+from .loader import AnalysisError, FunctionInfo, dotted
 from . import guards
 
 
 # ------------------------------------------------------------------------------------------------ frame
+BV = r'\$\d+(?:\.\d+)?(?:r\d+)?'      # a canonical bound-variable name as PathFrame writes it ($k, $d.k, with a round suffix)
+
+
 class PathFrame(Frame):
     MAX_ROUNDS = 4
+    path_inline = None       # callable(FunctionInfo) -> bool: helpers whose statement-level calls are followed path by path
+
+    # ------------------------------------------------------------------ statement-level calls of helpers, path by path
+    def _helper(self, call, st):
+        """(FunctionInfo, receiver value) when `call` goes to a helper the policy wants followed, else None."""
+        if self.path_inline is None or self.depth >= self.sc.max_depth or not isinstance(call, ast.Call):
+            return None
+        if any(isinstance(a, ast.Starred) for a in call.args) or any(k.arg is None for k in call.keywords):
+            return None
+        f = call.func
+        if isinstance(f, ast.Attribute):
+            recv = self.ev(f.value, st, quiet=True)
+            cls = getattr(recv, 'cls', None) if isinstance(recv, (Sym, Obj)) else None
+            if cls is None:
+                return None
+            fi = cls.find_method(f.attr)
+            if fi is None or cls.find_prop(f.attr) is not None or cls.find_plain_prop(f.attr) is not None:
+                return None
+            if any(dotted(d) in ('staticmethod', 'classmethod') for d in fi.node.decorator_list):
+                return None
+            return (fi, recv) if self.path_inline(fi) else None
+        if isinstance(f, ast.Name) and f.id not in st.env:
+            r = self.prog.lookup(self.module, f.id)
+            if isinstance(r, FunctionInfo) and r.cls is None and self.path_inline(r):
+                return r, None
+        return None
+
+    def _call_paths(self, call, st, hit):
+        """Run the helper on forks of `st`; -> [(caller state, status, returned value)] with status normal / raise."""
+        fi, recv = hit
+        args = [self.ev(a, st) for a in call.args]
+        kwargs = {k.arg: self.ev(k.value, st) for k in call.keywords}
+        pos = list(fi.params)
+        env = {}
+        if recv is not None and pos:
+            first = pos.pop(0)
+            env[first] = recv
+            rt = render(recv)
+            for k, v in st.env.items():
+                if k.startswith(rt + '.'):
+                    env[first + k[len(rt):]] = v
+        binding = dict(zip(pos, args))
+        binding.update(kwargs)
+        defaults = fi.node.args.defaults
+        for name, d in zip(pos[len(pos) - len(defaults):], defaults):
+            if name not in binding:
+                try:
+                    binding[name] = Const(ast.literal_eval(d))
+                except Exception:
+                    binding[name] = Sym(ast.unparse(d))
+        for name in pos:
+            env[name] = binding.get(name, Sym(name))
+        for a in fi.node.args.kwonlyargs:
+            env[a.arg] = binding.get(a.arg, Sym(a.arg))
+        callee = st.fork()
+        caller_env = callee.env
+        callee.env = env
+        st.events.append(('call', fi.qualname, [render(a) for a in args], {k: render(v) for k, v in kwargs.items()}, call.lineno))
+        callee.events = list(st.events)
+        fr = type(self)(self.I, fi, self.depth + 1)
+        fr.path_inline = self.path_inline
+        outs = []
+        for s, status in fr.block(fi.node.body, callee):
+            val = s.ret if status == 'return' else Const(None)
+            s.env = {k: _clone(v) for k, v in caller_env.items()}
+            s.ret = None
+            outs.append((s, 'raise' if status == 'raise' else 'normal', val))
+        return outs
+
+    def st_Assign(self, node, st):
+        hit = self._helper(node.value, st)
+        if hit is None:
+            return Frame.st_Assign(self, node, st)
+        outs = []
+        for s, status, val in self._call_paths(node.value, st, hit):
+            if status == 'normal':
+                for t in node.targets:
+                    self.assign(t, val, s, node)
+            outs.append((s, status))
+        return outs
+
+    def st_Expr(self, node, st):
+        hit = self._helper(node.value, st)
+        if hit is None:
+            return Frame.st_Expr(self, node, st)
+        return [(s, status) for s, status, _ in self._call_paths(node.value, st, hit)]
+
+    def st_Return(self, node, st):
+        hit = self._helper(node.value, st) if node.value is not None else None
+        if hit is None:
+            return Frame.st_Return(self, node, st)
+        outs = []
+        for s, status, val in self._call_paths(node.value, st, hit):
+            if status == 'normal':
+                s.ret = val
+                s.events.append(('return', render(val), node.lineno))
+                status = 'return'
+            outs.append((s, status))
+        return outs
+
+    # ------------------------------------------------------------------ loops and try
 
     def _round_name(self, base, rnd):
         return base if rnd == 0 else '%sr%d' % (base, rnd + 1)
@@ -40,7 +147,6 @@ class PathFrame(Frame):
     def _sig(self, st, base, with_facts=False):
         def n(t):
             return re.sub(re.escape(base) + r'r\d+', base, t)
-        from .interp import render
         env = tuple(sorted((k, n(render(v))) for k, v in st.env.items()))
         calls = frozenset((n(c[0]), tuple(n(a) for a in c[1]), tuple(sorted((k, n(v)) for k, v in c[2].items()))) for c in st.calls)
         if with_facts:
@@ -123,7 +229,6 @@ class PathFrame(Frame):
                 s2 = sn.fork()
                 s2.facts.append(('except %s' % (self.text(h.type, s2) if h.type is not None else ''), True, None))
                 if h.name:
-                    from .interp import Sym
                     s2.env[h.name] = Sym(h.name)
                 outs.extend(self.block(h.body, s2))
         if node.finalbody:
